@@ -169,6 +169,21 @@ def main():
                     sch = col.schema()
                     if sch is None or sch.kind is not bool or sch.nullable:
                         F.add("table_compare_dtype", c, str(sch), "<bool>", tag=tag)
+                # table compared with a table of the same shape (cell by cell, written operand order), and with a vector holding
+                # one value per COLUMN
+                N = [[conc((x + 1) % 3) if x != -1 else conc(1) for x in col] for col in c["M"]]
+                t2 = Table([Vector(list(col), name="n%d" % i) for i, col in enumerate(N)])
+                exp2 = [[False if a is None or b is None else bool(ops[c["op"]](a, b)) for a, b in zip(ca, cb)] for ca, cb in zip(M, N)]
+                st, r2, e = attempt(lambda: ops[c["op"]](t, t2))
+                ex += 1
+                if st != "ok" or not isinstance(r2, Vector) or [list(x) for x in r2.cols()] != exp2:
+                    F.add("table_compare", c, [list(x) for x in r2.cols()] if st == "ok" and isinstance(r2, Vector) else repr(e or r2)[:80], exp2, tag=tag, right="table")
+                per_col = [conc(1 + (i % 2)) for i in range(len(M))]
+                exp3 = [[False if a is None else bool(ops[c["op"]](a, per_col[i])) for a in col] for i, col in enumerate(M)]
+                st, r3, e = attempt(lambda: ops[c["op"]](t, Vector(list(per_col))))
+                ex += 1
+                if st == "ok" and isinstance(r3, Vector) and len(M) > 1 and [list(x) for x in r3.cols()] != exp3:
+                    F.add("table_compare", c, [list(x) for x in r3.cols()], exp3, tag=tag, right="vector with one value per column")
     json.dump({"executed": ex, "failures": F.items, "per_clause": F.per, "skipped": F.skipped}, open(sys.argv[4], "w"), default=str)
 
 
